@@ -94,6 +94,7 @@ pub struct Agg {
     pub state_sigs: Vec<u64>,
     pub inter_sigs: Vec<u64>,
     pub case_sigs: Vec<u64>,
+    pub episode_digest: u64,
     pub crash_points: u64,
     pub crash_reopens: u64,
     pub decodes: u64,
@@ -121,6 +122,7 @@ impl Agg {
         }
         self.state_sigs.extend(s.state_sigs.iter().copied());
         self.inter_sigs.push(s.interleave_sig);
+        self.episode_digest = self.episode_digest.wrapping_add(crate::rng::mix(&[out.result_hash, out.trace_hash, out.violation.is_some() as u64]));
         if nontrivial(prop, s) {
             self.case_sigs.push(crate::rng::mix(&[out.result_hash, out.trace_hash]));
         }
@@ -157,6 +159,7 @@ impl Agg {
             "crash_points": self.crash_points, "crash_reopens": self.crash_reopens, "decodes": self.decodes,
             "audits": self.audits, "traversals": self.traversals, "bytes_written": self.bytes_written,
             "effective_updates": self.effective_updates, "inconclusive_samples": self.inconclusive_samples,
+            "episode_digest": self.episode_digest,
         });
         *self = Agg::default();
         v
@@ -222,7 +225,14 @@ pub fn worker_main(args: &[String]) {
         let mut queue: std::collections::VecDeque<Episode> = fam.into();
         while let Some(ep) = queue.pop_front() {
             status.set(1, j);
-            let out = oracles::run(&ep, &env);
+            let out = if ep.isolate {
+                let mut e2 = ep.clone();
+                e2.isolate = false;
+                let r = crate::coord::exec_episode(&e2, cpu_budget);
+                Outcome { violation: r.violation, inconclusive: r.inconclusive, stats: RunStats::default(), trace_hash: r.trace_hash, result_hash: r.result_hash, sync_events: Vec::new() }
+            } else {
+                oracles::run(&ep, &env)
+            };
             agg.add(&prop, &out);
             if samples_sent < 2 && start == 0 {
                 samples_sent += 1;
